@@ -112,29 +112,59 @@ func c03RunCLI(args []string) (code int, stdout string, fatal bool) {
 const c03Match = `^([^|]*)\|([^|]*)\|(.*)$`
 
 func c03ReduceRun(f []string) string {
+	return c03ReduceRunEx(f, nil, [][]string{UnHexListS(f[7])})
+}
+
+// reducec <W,R,B,K> <flags> <initial> <sort> <groups> <accums> <nomatch> <files>: the same command on 1-4 files with FREE
+// --workers/--readers/--batch/--batch-buffer; the generated accumulators are order-insensitive ones (the class of
+// reduce_commutative_accumulators), so every schedule has to land on the sequential reference of the concatenated elements.
+func c03ReduceCRun(f []string) string {
+	tune := strings.Split(f[1], ",")
+	if len(tune) != 4 {
+		return "bad-args"
+	}
+	return c03ReduceRunEx(f[1:], tune, c03DecRows(f[8]))
+}
+
+func c03ReduceRunEx(f []string, tune []string, files [][]string) string {
 	flags, _ := strconv.Atoi(f[1])
 	initial := string(UnHex(f[2]))
 	groups := UnHexListS(f[4])
 	accums := UnHexListS(f[5])
 	nomatch, _ := strconv.Atoi(f[6])
-	elements := UnHexListS(f[7])
 	dir := c03TempDir()
-	in := filepath.Join(dir, "in.log")
+	old, _ := filepath.Glob(filepath.Join(dir, "in*.log"))
+	for _, o := range old {
+		os.Remove(o)
+	}
 	out := filepath.Join(dir, "out.csv")
-	var sb strings.Builder
-	for i := 0; i < nomatch; i++ {
-		sb.WriteString("no bars here\n")
-	}
-	for _, e := range elements {
-		sb.WriteString(strings.ReplaceAll(e, "\x00", "|"))
-		sb.WriteByte('\n')
-	}
-	if err := os.WriteFile(in, []byte(sb.String()), 0o644); err != nil {
-		return "err " + err.Error()
+	var paths []string
+	total := 0
+	for i, elements := range files {
+		var sb strings.Builder
+		if i == 0 {
+			for j := 0; j < nomatch; j++ {
+				sb.WriteString("no bars here\n")
+			}
+		}
+		for _, e := range elements {
+			sb.WriteString(strings.ReplaceAll(e, "\x00", "|"))
+			sb.WriteByte('\n')
+		}
+		total += len(elements)
+		in := filepath.Join(dir, fmt.Sprintf("in%d.log", i))
+		if err := os.WriteFile(in, []byte(sb.String()), 0o644); err != nil {
+			return "err " + err.Error()
+		}
+		paths = append(paths, in)
 	}
 	os.Remove(out)
-	args := []string{"reduce", "-m", c03Match, "--snapshot", "--csv", out, "--workers", "1", "--readers", "1",
-		"--batch", strconv.Itoa(1 + len(elements)%3)}
+	args := []string{"reduce", "-m", c03Match, "--snapshot", "--csv", out}
+	if tune == nil {
+		args = append(args, "--workers", "1", "--readers", "1", "--batch", strconv.Itoa(1+total%3))
+	} else {
+		args = append(args, "--workers", tune[0], "--readers", tune[1], "--batch", tune[2], "--batch-buffer", tune[3])
+	}
 	for _, g := range groups {
 		args = append(args, "-g", g)
 	}
@@ -153,7 +183,7 @@ func c03ReduceRun(f []string) string {
 	if f[3] != "-" {
 		args = append(args, "--sort", string(UnHex(f[3])))
 	}
-	args = append(args, in)
+	args = append(args, paths...)
 	code, stdout, fatal := c03RunCLI(args)
 	if fatal {
 		return fmt.Sprintf("fatal %d", code)
@@ -262,6 +292,77 @@ func c03ReduceCase(r *Rand) string {
 	return fmt.Sprintf("reduce %d %s %s %s %s %d %s", flags, HexS(initial), sortT, HexListS(groups), HexListS(accums), nomatch, HexListS(els))
 }
 
+// order-insensitive accumulators over integer parts: sums, counts, extrema, repeated subtraction / doubling
+var c03CommExprs = []string{"{sumi {.} {3}}", "{sumi {.} 1}", "{maxi {.} {3}}", "{mini {.} {3}}", "{subi {.} {3}}", "{multi {.} 2}",
+	"{sumi {.} {2}}", "{maxi {.} {2}}", "{sumi {3} {.}}", "{.}", "x"}
+
+func c03ReduceCCase(r *Rand) string {
+	flags := 0
+	if r.Chance(1, 4) {
+		flags |= 1
+	}
+	if r.Chance(1, 4) {
+		flags |= 2
+	}
+	initial := "0"
+	if r.Chance(1, 4) {
+		flags |= 4
+		initial = Pick(r, []string{"5", "-3", "10", "9223372036854775807"})
+	}
+	sortT := "-"
+	if r.Chance(1, 3) {
+		sortT = HexS(Pick(r, []string{"{n0}", "{0}", "{1}", "{t1}", "{nosuch}", "{sumi {n0} {0}}"}))
+	}
+	ng := Pick(r, []int{0, 1, 1, 1, 2})
+	var groups []string
+	for i := 0; i < ng; i++ {
+		groups = append(groups, fmt.Sprintf("g%d=%s", i, Pick(r, []string{"{1}", "{1}", "{1}-x", "{0}", "k"})))
+	}
+	na := r.Range(1, 4)
+	var accums []string
+	names := []string{"n", "t", "mx", "mn"}
+	for i := 0; i < na; i++ {
+		name := Pick(r, names) + strconv.Itoa(i)
+		if r.Chance(1, 4) {
+			name += ":" + Pick(r, []string{"0", "7", "-1", "100"})
+		}
+		accums = append(accums, name+"="+Pick(r, c03CommExprs))
+	}
+	n := r.Intn(12)
+	if r.Chance(1, 6) {
+		n = r.Range(12, 80)
+	}
+	keys := []string{"a", "b", "c", "k1", "", "é", "a b", "10", "9"}[:r.Range(1, 9)]
+	ints := func() string {
+		if r.Chance(1, 10) {
+			return Pick(r, []string{"9223372036854775807", "-9223372036854775808", "0", "-0", "007", "+5"})
+		}
+		return strconv.Itoa(r.Range(-20, 120))
+	}
+	els := make([]string, n)
+	for i := range els {
+		els[i] = Pick(r, keys) + "\x00" + ints() + "\x00" + ints()
+	}
+	nf := Pick(r, []int{1, 2, 2, 3, 4})
+	files := make([][]string, nf)
+	for i := range files {
+		files[i] = []string{}
+	}
+	for i, e := range els {
+		k := r.Intn(nf)
+		if r.Chance(1, 2) {
+			k = i * nf / (len(els) + 1)
+		}
+		files[k] = append(files[k], e)
+	}
+	nomatch := 0
+	if r.Chance(1, 3) {
+		nomatch = r.Range(1, 3)
+	}
+	tune := fmt.Sprintf("%d,%d,%d,%d", Pick(r, []int{1, 2, 3, 4}), Pick(r, []int{1, 2, 3}), Pick(r, []int{1, 1, 2, 3, 7, 1000}), Pick(r, []int{0, 1, 2, 1000}))
+	return fmt.Sprintf("reducec %s %d %s %s %s %s %d %s", tune, flags, HexS(initial), sortT, HexListS(groups), HexListS(accums), nomatch, c03EncFiles(files))
+}
+
 func c03ReduceStats(f []string, st map[string]int) {
 	st["op.reduce"]++
 	flags, _ := strconv.Atoi(f[1])
@@ -282,6 +383,8 @@ func c03ReduceStats(f []string, st map[string]int) {
 }
 
 var c03ReduceCorpus = []string{
+	// three files, four workers, two readers: sum / max / count per key = the sequential reference
+	"reducec 4,2,1,0 0 30 - 67303d7b317d 74303d7b73756d69207b2e7d207b337d7d;6d78313d7b6d617869207b2e7d207b337d7d;6e323d7b73756d69207b2e7d20317d 1 6100310035;6200310037|6100310039;610031002d32|6200310031",
 	// no group, no accumulator: no columns at all (the guard of reduce_csv_roundtrip)
 	"reduce 0 30 - . . 0 6100780031",
 	// the empty group key after a named one (6a022dd), equal sort keys (f1f38db)
